@@ -238,11 +238,11 @@ def early_return(repo, run, cm):
         run.report("C13.4", DS, n, "system state is written (or a method is called) before the early return for a call made at the target")
 
 
-def settings_reach_integrator(repo, run, cm):
+def settings_reach_integrator(repo, run, cm, rule_id="C13.5"):
     """results do not depend on call history: a system whose tolerance was CHANGED to X must behave like one CONSTRUCTED with X.  Integrators take their
     tolerances at construction and some keep copies (the Richardson wrapper stores them in its controller's solver_dict and builds its base integrators
     with them), so a changed tolerance reaches all of them only if the setter rebuilds the integrator."""
-    rid = run.rule("C13.5", "the rtol / atol setters of OdeSystem store the value and then rebuild the integrator (initialise_integrator): integrators copy the "
+    rid = run.rule(rule_id, "the rtol / atol setters of OdeSystem store the value and then rebuild the integrator (initialise_integrator): integrators copy the "
                             "tolerances at construction (verified: constructor stores them in solver_dict / hands them to sub-integrators), so an in-place update "
                             "of the live integrator would leave those copies stale", floor=3)
     ITY = "desolver/integrators/integrator_types.py"
@@ -275,7 +275,7 @@ def settings_reach_integrator(repo, run, cm):
         ok = bool(stores) and bool(rebuilds) and all(isinstance(r._parent, ast.FunctionDef) for r in rebuilds[:1]) and path_key(stores[-1], st_fn) < path_key(rebuilds[0], st_fn)
         run.judged(rid, "%s setter: store then initialise_integrator()" % attr, ok=ok)
         if not ok:
-            run.report("C13.5", DS, st_fn, "the %s setter does not rebuild the integrator after storing the new value: integrators that copied the tolerance at construction (%s) keep "
+            run.report(rule_id, DS, st_fn, "the %s setter does not rebuild the integrator after storing the new value: integrators that copied the tolerance at construction (%s) keep "
                                            "the old one, so a system whose tolerance was changed behaves differently from one constructed with that tolerance (and differently "
                                            "before and after reset())" % (attr, "; ".join("%s: %s" % s_ for s_ in sorted(set(snap))[:2])), text="%s setter rebuild" % attr)
 
